@@ -535,6 +535,16 @@ def _law_case(case):
                 case.check(np.asarray(many[kf]).shape == one.shape and close(many[kf], one, 1e-6),
                            "from_files(paths)[k] != from_file(paths[k])", None, k=kf, voxels=vox, scale=scale,
                            got=np.asarray(many[kf]).shape, want=one.shape)
+            # a file that is rewritten between two reads (new content, new voxel size) is read anew
+            arr2 = (img[::-1] * 5).astype(np.float32).copy()
+            with open(paths[0], "wb") as fh:
+                fh.write(np.array([vox[0] * 2.0, *arr2.shape], dtype=np.float64).tobytes())
+                fh.write(np.ascontiguousarray(arr2).tobytes())
+            again = np.asarray(pipe.from_file(paths[0])(scale))
+            want_again = np.asarray(pipe.from_array(arr2, original_scale=vox[0] * 2.0)(scale))
+            case.check(again.shape == want_again.shape and close(again, want_again, 1e-5),
+                       "from_file returned the old content of a file that was rewritten", None, got=again.shape,
+                       want=want_again.shape)
             forced = pipe.from_files(paths, original_scale=o)(scale)
             want_f = np.asarray(pipe.from_array(img, original_scale=o)(scale))
             case.check(all(np.asarray(f_).shape == want_f.shape for f_ in forced),
@@ -662,6 +672,11 @@ def _law_case(case):
         # integer-valued images: ties exist, so <= / < and >= / > are distinguishable
         ia = rng.integers(0, 3, size=shape).astype(np.float32)
         ib = rng.integers(0, 3, size=shape).astype(np.float32)
+        if rng.random() < 0.5:
+            # undefined voxels (0/0 inside a pipeline): every comparison with a NaN is False, as in numpy
+            ia[rng.random(shape) < 0.1] = np.nan
+            ib[rng.random(shape) < 0.1] = np.nan
+            case.count("comparisons_with_nan_voxels")
         pa, pb = pipe.from_array(ia, original_scale=1.0, tol=1e9), pipe.from_array(ib, original_scale=1.0, tol=1e9)
 
         @pipe.converter_function
@@ -671,6 +686,8 @@ def _law_case(case):
         ca, cb = plus(0.0), plus(1.0)
         k = float(rng.integers(0, 3))
         xi = rng.integers(0, 3, size=shape).astype(np.float32)
+        if np.isnan(ia).any():
+            xi[rng.random(shape) < 0.1] = np.nan
         for name, f in CMP.items():
             combos = {
                 "provider-provider": (lambda: f(pa, pb)(scale), f(ia, ib)),
